@@ -705,13 +705,13 @@ void runOuter(Src &src, Case &c)
 {
     run(src, c);
     if (const char *only = getenv("C06_DEV_ONLY")) {
-        // development aid: keep only failures whose signature starts with the given text (to shrink towards one finding)
+        // development aid: keep only failures whose signature matches the given glob (to shrink towards one finding)
         std::vector<std::pair<std::string, std::string>> keep;
-        if (!c.ok && c.sig.compare(0, strlen(only), only) == 0) {
+        if (!c.ok && globMatch(only, c.sig)) {
             keep.emplace_back(c.sig, c.msg);
         }
         for (const auto &x : c.alsoFailed) {
-            if (x.first.compare(0, strlen(only), only) == 0) {
+            if (globMatch(only, x.first)) {
                 keep.push_back(x);
             }
         }
